@@ -89,7 +89,7 @@ def check_config(ctx, cfg, page, info, do_paths=True):
         if prc != 0 or len(pout) != len(pops):
             raise RuntimeError("drv_c15 failed: " + perr[-400:])
         for i, o, po in zip(idx, pout, pops):
-            if o != "yes":
+            if o not in ("yes", "yes-inlined"):
                 path_bad.append((ops[i], po, o))
     # blobClose model vs implementation
     sizes = sorted(set([1, 7, 8, 9, 15, 16, 17, 40, 255, 256, 1015, 1016, 1017, 1024, 4000] +
@@ -103,11 +103,11 @@ def check_config(ctx, cfg, page, info, do_paths=True):
     if os.path.exists(ctx.driver()):
         ml, _, _ = ctx.run_lines(ctx.driver(), mops)
         for s, l, m in zip(sizes, wl, ml):
-            lc = " ".join(kv for kv in l.split() if not kv.startswith("ptrmod="))
+            lc = " ".join(kv for kv in l.split() if not kv.startswith("ptrmod=") and not kv.startswith("stale="))
             if lc != m:
                 wipe_bad.append((s, l, m))
     for s, l in zip(sizes, wl):
-        if "fill_left=1" in l or "header_intact=1" in l or "not-released" in l:
+        if "fill_left=1" in l or "header_intact=1" in l or "not-released" in l or " stale=0@" not in l:
             problems.append(("wipe %d" % s, "blobClose", "the block handed to free() by blobClose is not overwritten: " + l[:120], cfg))
     return ops, res, problems, path_bad, wipe_bad, len(sizes)
 
@@ -202,7 +202,7 @@ def replay(ctx, path):
         if op.startswith("scen"):
             pr = judge(x_c09obl.parse_scen(line))
         else:
-            pr = ["not overwritten"] if ("fill_left=1" in line or "header_intact=1" in line or "not-released" in line) else []
+            pr = ["not overwritten"] if ("fill_left=1" in line or "header_intact=1" in line or "not-released" in line or " stale=0@" not in line) else []
         for p in pr:
             print("  STILL FAILS: " + p)
             bad = 1
